@@ -152,7 +152,11 @@ def replay(p):
                 if step[0] == 'symplectic':
                     circ.to_symplectic_form()
                     continue
-                got = circ.apply_pauli_F2(P)
+                try:
+                    got = circ.apply_pauli_F2(P)
+                except Exception as e:       # an exception of the real code on a valid phased Pauli after a valid history is itself the violation
+                    bad = f'after {[s[1] + str(s[2]) for s in p["steps"] if s[0] == "gate"]}: apply_pauli_F2({P.tolist()}) raises {type(e).__name__}: {e}'
+                    break
                 want = matrix_to_f2(U.conj().T @ pauli_matrix(P) @ U, n)
                 if not np.array_equal(got, want):
                     bad = f'after {[s[1] + str(s[2]) for s in p["steps"] if s[0] == "gate"]}: query P={P.tolist()} gave {got.tolist()}, U^dag P U = {want.tolist()}'
